@@ -25,6 +25,14 @@ def generate(c, want_sim):
     return pool, seps, cases, stats
 
 
+def model_refines(c):
+    """Design level: Lexer (+) TokenTable |= Lexemes, model-checked by TLC over every pair sequence (spec/lexer/LexRefine.tla)."""
+    r = run_tlc("lexer", "LexRefine", "LexRefine_pairs.cfg", workers=8, timeout=1500, xss="512m", cache_key="refine", lib="lexemes", keep_tags=set())
+    if not r.ok:
+        c.tool_error(f"LexRefine: the lexer machine specs do not refine Lexemes: {r.violated or r.error_text} {r.raw_tail[-600:]}")
+    return {"module": "LexRefine", "states": r.distinct, "invariants": ["C15_Model", "C11_Model"]}
+
+
 def replay(c, pool, seps, cases):
     pp = os.path.join(c.work, "pool.json"); sp = os.path.join(c.work, "seps.json"); cp = os.path.join(c.work, "cases.ndjson")
     json.dump(pool, open(pp, "w")); json.dump(seps, open(sp, "w"))
